@@ -211,15 +211,8 @@ def _whole_res(res):
 
 
 def check_isvalidcell_whole(ctx, m, cfg, pent, nbc):
-    global _WM
-    import multiprocessing as mp
     f = m.fn("isValidCell")
-    _WM = (m, pent, nbc)
-    try:
-        with mp.get_context("fork").Pool(min(16, mp.cpu_count() or 1)) as pool:
-            results = pool.map(_whole_res, range(16), 1)
-    finally:
-        _WM = None
+    results = _pmap(_whole_res, range(16), (m, pent, nbc))
     n = sum(r[0] for r in results)
     states = sum(r[1] for r in results)
     for r in results:
@@ -234,3 +227,409 @@ def check_isvalidcell_whole(ctx, m, cfg, pent, nbc):
             return
     ctx.ok(RULE, {"function": "isValidCell", "cases": n, "config": cfg, "product_states": states, "inputs_covered": "all 2^64 values (16 resolutions x 128 base-cell fields x all other bits)"},
            "isValidCell (helpers evaluated through their call sites) returns true exactly for the documented layout: " + SpecValidCell.text)
+
+
+# ====================================================================== index operations (C03/C04/C05/C09/C10)
+E_SUCCESS, E_RES_DOMAIN, E_RES_MISMATCH, E_DIR_EDGE_INVALID = 0, 4, 12, 6
+
+
+class SpecNone:
+    """no automaton state: every named formula must be false ('no path yields a value different from the documented one')"""
+    def __init__(self, names): self.names = names
+    def init(self): return 0
+    def step(self, j, x, s): return s
+    def final(self, s): return {n: False for n in self.names}
+
+
+class SpecLead:
+    """tracks the first non-zero digit among 1..res (highest non-zero lane >= 15-res), optionally after a digit map"""
+    def __init__(self, res, dmap=None, names=None):
+        self.res, self.dmap, self.names = res, dmap, names
+    def init(self): return 0
+    def step(self, j, x, s):
+        if 15 - self.res <= j <= 14:
+            d = self.dmap[x] if self.dmap else x
+            if d != 0:
+                return d
+        return s
+    def final(self, s):
+        return self.names(s)
+
+
+def _digit_map(m, fname):
+    from . import tables
+    mp, default = tables.switch_map(m, fname)
+    if default != "identity":
+        raise AnalysisBroken("%s: default case is not the identity" % fname)
+    return [mp.get(d, d) for d in range(8)]
+
+
+def _run_case(m, fname, allowed, args):
+    ev = lanes.Evaluator(m, allowed)
+    return ev, ev.run(fname, args)
+
+
+def _report(ctx, cfg, fname, key, f, ncases, states, bad, text, casetxt=""):
+    if bad:
+        name, got, exp, wit = bad
+        ctx.violation(RULE, "%s:%s" % (fname, key), "%s(%s%s): %s; documented: %s" % (fname, fmt_digits(wit), casetxt, name, text),
+                      f.where(), {"function": fname, "witness": "0x%x" % wit, "config": cfg})
+    else:
+        ctx.ok(RULE, {"function": fname, "cases": ncases, "config": cfg, "product_states": states, "inputs_covered": "all index values per case"},
+               "%s: %s (%d cases, no disagreeing reachable state)" % (fname, text, ncases))
+
+
+def _res_cases():
+    for res in range(16):
+        yield res, assume_field(free_lanes(), RES_OFF, RES_W, res)
+
+
+def chk_leading(ctx, m, cfg):
+    fname = "_h3LeadingNonZeroDigit"
+    f = m.fn(fname)
+    text = "returns the first non-zero digit among 1..res(h), 0 if there is none"
+    states = n = 0
+    for res, allowed in _res_cases():
+        ev, paths = _run_case(m, fname, allowed, [LV.input()])
+        fm = {}
+        for v in range(8):
+            g = F_const(False)
+            for p in paths:
+                r = p.ret
+                if isinstance(r, int):
+                    t = F_const(r == v)
+                elif isinstance(r, LV):
+                    t = ev.icmp("eq", r, v, r.width, f.blocks[0].insts[0])
+                    t = F_const(bool(t)) if isinstance(t, int) else t.f
+                else:
+                    raise Shape("unexpected return value kind")
+                g = F_or(g, F_and(p.cond, t))
+            fm["returns %d" % v] = g
+        spec = SpecLead(res, None, lambda s: {"returns %d" % v: (s == v) for v in range(8)})
+        st, bad = lanes.decide(allowed, fm, spec)
+        states += st; n += 1
+        if bad:
+            nm, got, exp, wit = bad
+            bad = ("'%s' is %s" % (nm, got), got, exp, wit)
+            break
+    _report(ctx, cfg, fname, "leading-digit", f, n, states, bad, text)
+
+
+def _pmap(fn, items, shared):
+    """fork-pool map with `shared` visible to the workers as _WM"""
+    global _WM
+    import multiprocessing as mp
+    _WM = shared
+    try:
+        with mp.get_context("fork").Pool(min(16, mp.cpu_count() or 1)) as pool:
+            return pool.map(fn, items, 1)
+    finally:
+        _WM = None
+
+
+def _ispent_res(res):
+    m, pent, nbc = _WM
+    states = n = 0
+    try:
+        for bc in range(128):
+            allowed = assume_field(assume_field(free_lanes(), RES_OFF, RES_W, res), BC_OFF, BC_W, bc)
+            ev, paths = _run_case(m, "isPentagon", allowed, [LV.input()])
+            isp = bc < nbc and pent[bc]
+            spec = SpecLead(res, None, lambda s, isp=isp: {"returns non-zero": isp and s == 0})
+            st, bad = lanes.decide(allowed, {"returns non-zero": ret_formula(paths)}, spec)
+            states += st; n += 1
+            if bad:
+                return n, states, ("'%s' is %s" % (bad[0], bad[1]), bad[1], bad[2], bad[3]), None
+    except Shape as e:
+        return n, states, None, "res=%d: %s" % (res, e)
+    return n, states, None, None
+
+
+def chk_ispentagon(ctx, m, cfg):
+    fname = "isPentagon"
+    f = m.fn(fname)
+    pent, nbc = _pentagons(m)
+    text = "non-zero exactly when the base cell is one of the pentagons and the digits 1..res(h) are all 0"
+    results = _pmap(_ispent_res, range(16), (m, pent, nbc))
+    for r in results:
+        if r[3]:
+            raise Shape(r[3])
+    bad = next((r[2] for r in results if r[2]), None)
+    _report(ctx, cfg, fname, "is-pentagon", f, sum(r[0] for r in results), sum(r[1] for r in results), bad, text)
+
+
+def _rot_lane(res, dmap, times=1):
+    def fn(j, x):
+        if 15 - res <= j <= 14:
+            for _ in range(times):
+                x = dmap[x]
+        return x
+    return fn
+
+
+def chk_rotate(ctx, m, cfg):
+    for fname, mapfn in (("_h3Rotate60ccw", "_rotate60ccw"), ("_h3Rotate60cw", "_rotate60cw")):
+        f = m.fn(fname)
+        dmap = _digit_map(m, mapfn)
+        text = "every digit 1..res(h) is replaced by %s(digit); all other bits unchanged" % mapfn
+        states = n = 0
+        bad = None
+        for res, allowed in _res_cases():
+            ev, paths = _run_case(m, fname, allowed, [LV.input()])
+            fm = {"result differs": lanes.mismatch_formula(paths, lambda p: p.ret, _rot_lane(res, dmap))}
+            st, bad = lanes.decide(allowed, fm, SpecNone(list(fm)))
+            states += st; n += 1
+            if bad:
+                bad = ("result differs from the documented one", bad[1], bad[2], bad[3])
+                break
+        _report(ctx, cfg, fname, "rotate", f, n, states, bad, text)
+
+
+def chk_rotate_pent(ctx, m, cfg):
+    for fname, mapfn in (("_h3RotatePent60ccw", "_rotate60ccw"), ("_h3RotatePent60cw", "_rotate60cw")):
+        f = m.fn(fname)
+        dmap = _digit_map(m, mapfn)
+        text = ("every digit 1..res(h) is replaced by %s(digit); if the first non-zero digit would then be K (1, the deleted sub-sequence of a "
+                "pentagon) all digits are rotated once more; all other bits unchanged" % mapfn)
+        states = n = 0
+        bad = None
+        for res, allowed in _res_cases():
+            ev, paths = _run_case(m, fname, allowed, [LV.input()])
+            fm = {"once": lanes.mismatch_formula(paths, lambda p: p.ret, _rot_lane(res, dmap, 1)),
+                  "twice": lanes.mismatch_formula(paths, lambda p: p.ret, _rot_lane(res, dmap, 2))}
+            # the first non-zero ROTATED digit decides which of the two documented results applies
+            spec = SpecLead(res, dmap, lambda s: {"once": None, "twice": False} if s == 1 else {"once": False, "twice": None})
+            st, bad = lanes.decide(allowed, fm, spec)
+            states += st; n += 1
+            if bad:
+                bad = ("result differs from the documented one (digits rotated %s)" % bad[0], bad[1], bad[2], bad[3])
+                break
+        _report(ctx, cfg, fname, "rotate-pent", f, n, states, bad, text)
+
+
+def _field_lane(off, width, value, j):
+    """(mask, bits) of lane j for a field set to value"""
+    mk = vl = 0
+    for q in range(3 * j, 3 * j + 3):
+        if off <= q < off + width:
+            mk |= 1 << (q - 3 * j)
+            vl |= ((value >> (q - off)) & 1) << (q - 3 * j)
+    return mk, vl
+
+
+def _ptr(k):
+    return ("argptr", k, ())
+
+
+def chk_parent(ctx, m, cfg):
+    fname = "cellToParent"
+    f = m.fn(fname)
+    hk, pk, ok_ = f.arg_index("h"), f.arg_index("parentRes"), f.arg_index("out")
+    if None in (hk, pk, ok_):
+        raise AnalysisBroken("cellToParent: parameters h/parentRes/out not found")
+    text = ("for 0 <= parentRes <= res(h): success and *out = h with the resolution field = parentRes and the digits parentRes+1..res(h) = 7, every other bit "
+            "unchanged; parentRes > res(h): E_RES_MISMATCH; parentRes outside 0..15: E_RES_DOMAIN; no store on failure")
+    states = n = 0
+    bad = None
+    for res, allowed in _res_cases():
+        for pr in (-1, 16) + tuple(range(16)):
+            args = [None] * len(f.args)
+            args[hk], args[pk], args[ok_] = LV.input(), pr & 0xFFFFFFFF, _ptr(ok_)
+            ev, paths = _run_case(m, fname, allowed, args)
+            exp_code = E_RES_DOMAIN if pr < 0 or pr > 15 else (E_RES_MISMATCH if pr > res else E_SUCCESS)
+
+            def lane(j, x, pr=pr, res=res):
+                if j <= 14:
+                    d = 15 - j
+                    if pr < d <= res:
+                        return 7
+                    if d > res and x != 7:
+                        return None         # beyond the cell's own resolution: 7 in every valid cell
+                    return x
+                mk, vl = _field_lane(RES_OFF, RES_W, pr, j)
+                return (x & ~mk & 7) | vl
+            wrongcode = F_const(False)
+            wrongstore = F_const(False)
+            for p in paths:
+                if not isinstance(p.ret, int):
+                    raise Shape("cellToParent returns a value that depends on the index beyond its resolution field")
+                if p.ret != exp_code:
+                    wrongcode = F_or(wrongcode, p.cond)
+                st_ = p.stores.get((ok_, ()))
+                if exp_code != E_SUCCESS:
+                    if st_ is not None:
+                        wrongstore = F_or(wrongstore, p.cond)
+                elif p.ret == E_SUCCESS:
+                    if st_ is None:
+                        wrongstore = F_or(wrongstore, p.cond)
+                    else:
+                        wrongstore = F_or(wrongstore, F_and(p.cond, lanes.F_atom(lanes.Atom("nz", lanes.diff_lv(st_, lane)))))
+            fm = {"returns a code other than %d" % exp_code: wrongcode, "*out is not the documented parent (or is written on failure)": wrongstore}
+            st, bad = lanes.decide(allowed, fm, SpecNone(list(fm)))
+            states += st; n += 1
+            if bad:
+                bad = (bad[0], bad[1], bad[2], bad[3])
+                casetxt = ", parentRes=%d" % pr
+                break
+        if bad:
+            break
+    _report(ctx, cfg, fname, "parent", f, n, states, bad, text, casetxt if bad else "")
+
+
+def chk_centerchild(ctx, m, cfg):
+    fname = "cellToCenterChild"
+    f = m.fn(fname)
+    hk, ck, ok_ = f.arg_index("h"), f.arg_index("childRes"), f.arg_index("child")
+    if None in (hk, ck, ok_):
+        raise AnalysisBroken("cellToCenterChild: parameters h/childRes/child not found")
+    text = ("for res(h) <= childRes <= 15: success and *child = h with the resolution field = childRes and the digits res(h)+1..childRes = 0, every other bit "
+            "unchanged; otherwise E_RES_DOMAIN and no store")
+    states = n = 0
+    bad = None
+    casetxt = ""
+    for res, allowed in _res_cases():
+        for cr in (-1, 16) + tuple(range(16)):
+            args = [None] * len(f.args)
+            args[hk], args[ck], args[ok_] = LV.input(), cr & 0xFFFFFFFF, _ptr(ok_)
+            ev, paths = _run_case(m, fname, allowed, args)
+            exp_code = E_SUCCESS if res <= cr <= 15 else E_RES_DOMAIN
+
+            def lane(j, x, cr=cr, res=res):
+                if j <= 14:
+                    d = 15 - j
+                    if res < d <= cr:
+                        return 0
+                    if d > cr and x != 7:
+                        return None
+                    return x
+                mk, vl = _field_lane(RES_OFF, RES_W, cr, j)
+                return (x & ~mk & 7) | vl
+            wrongcode = F_const(False)
+            wrongstore = F_const(False)
+            for p in paths:
+                if not isinstance(p.ret, int):
+                    raise Shape("cellToCenterChild returns an index-dependent code")
+                if p.ret != exp_code:
+                    wrongcode = F_or(wrongcode, p.cond)
+                st_ = p.stores.get((ok_, ()))
+                if exp_code != E_SUCCESS:
+                    if st_ is not None:
+                        wrongstore = F_or(wrongstore, p.cond)
+                elif p.ret == E_SUCCESS:
+                    if st_ is None:
+                        wrongstore = F_or(wrongstore, p.cond)
+                    else:
+                        wrongstore = F_or(wrongstore, F_and(p.cond, lanes.F_atom(lanes.Atom("nz", lanes.diff_lv(st_, lane)))))
+            fm = {"returns a code other than %d" % exp_code: wrongcode, "*child is not the documented centre child (or is written on failure)": wrongstore}
+            st, bad = lanes.decide(allowed, fm, SpecNone(list(fm)))
+            states += st; n += 1
+            if bad:
+                casetxt = ", childRes=%d" % cr
+                break
+        if bad:
+            break
+    _report(ctx, cfg, fname, "center-child", f, n, states, bad, text, casetxt)
+
+
+def chk_directchild(ctx, m, cfg):
+    fname = "makeDirectChild"
+    f = m.fn(fname)
+    text = "for res(h) < 15: h with the resolution field = res(h)+1 and digit res(h)+1 = cellNumber, every other bit unchanged"
+    states = n = 0
+    bad = None
+    casetxt = ""
+    for res, allowed in _res_cases():
+        if res == 15:
+            continue
+        for num in range(7):
+            ev, paths = _run_case(m, fname, allowed, [LV.input(), num])
+
+            def lane(j, x, res=res, num=num):
+                if j <= 14:
+                    return num if 15 - j == res + 1 else x
+                mk, vl = _field_lane(RES_OFF, RES_W, res + 1, j)
+                return (x & ~mk & 7) | vl
+            fm = {"result differs": lanes.mismatch_formula(paths, lambda p: p.ret, lane)}
+            st, bad = lanes.decide(allowed, fm, SpecNone(list(fm)))
+            states += st; n += 1
+            if bad:
+                casetxt = ", cellNumber=%d" % num
+                break
+        if bad:
+            break
+    _report(ctx, cfg, fname, "direct-child", f, n, states, bad, text, casetxt)
+
+
+def chk_edge_origin(ctx, m, cfg):
+    fname = "getDirectedEdgeOrigin"
+    f = m.fn(fname)
+    ek, ok_ = f.arg_index("edge"), f.arg_index("out")
+    if None in (ek, ok_):
+        raise AnalysisBroken("getDirectedEdgeOrigin: parameters edge/out not found")
+    text = "mode field == 2: success and *out = edge with mode = 1 and reserved bits = 0, every other bit unchanged; any other mode: E_DIR_EDGE_INVALID"
+    states = n = 0
+    bad = None
+    casetxt = ""
+    for mode in range(16):
+        allowed = assume_field(free_lanes(), MODE_OFF, MODE_W, mode)
+        args = [None] * len(f.args)
+        args[ek], args[ok_] = LV.input(), _ptr(ok_)
+        ev, paths = _run_case(m, fname, allowed, args)
+        exp_code = E_SUCCESS if mode == 2 else E_DIR_EDGE_INVALID
+
+        def lane(j, x):
+            mk1, vl1 = _field_lane(MODE_OFF, MODE_W, 1, j)
+            mk2, vl2 = _field_lane(RSV_OFF, RSV_W, 0, j)
+            return (x & ~(mk1 | mk2) & 7) | vl1 | vl2
+        wrongcode = F_const(False)
+        wrongstore = F_const(False)
+        for p in paths:
+            if not isinstance(p.ret, int):
+                raise Shape("getDirectedEdgeOrigin returns an index-dependent code")
+            if p.ret != exp_code:
+                wrongcode = F_or(wrongcode, p.cond)
+            st_ = p.stores.get((ok_, ()))
+            if exp_code == E_SUCCESS and p.ret == E_SUCCESS:
+                if st_ is None:
+                    wrongstore = F_or(wrongstore, p.cond)
+                else:
+                    wrongstore = F_or(wrongstore, F_and(p.cond, lanes.F_atom(lanes.Atom("nz", lanes.diff_lv(st_, lane)))))
+        fm = {"returns a code other than %d" % exp_code: wrongcode, "*out is not the edge with mode 1 and reserved bits 0": wrongstore}
+        st, bad = lanes.decide(allowed, fm, SpecNone(list(fm)))
+        states += st; n += 1
+        if bad:
+            casetxt = ", mode field %d" % mode
+            break
+    _report(ctx, cfg, fname, "edge-origin", f, n, states, bad, text, casetxt)
+
+
+INDEXOPS = {
+    "leading": (chk_leading, ["C03", "C04", "C05", "C09"]),
+    "ispentagon": (chk_ispentagon, ["C03", "C04"]),
+    "rotate": (chk_rotate, ["C02", "C03", "C05", "C09"]),
+    "rotate-pent": (chk_rotate_pent, ["C02", "C03", "C05", "C09"]),
+    "parent": (chk_parent, ["C04", "C06", "C13"]),
+    "center-child": (chk_centerchild, ["C04"]),
+    "direct-child": (chk_directchild, ["C04", "C06"]),
+    "edge-origin": (chk_edge_origin, ["C10"]),
+}
+
+
+def check_indexops(ctx, m, cfg, tier="quick", pid=None):
+    n = 0
+    for name, (fn, props) in INDEXOPS.items():
+        if pid is not None and pid not in props:
+            continue
+        n += 1
+        try:
+            fn(ctx, m, cfg)
+        except (Shape, AnalysisBroken) as e:
+            ctx.broken(RULE, "%s: %s" % (name, e))
+    return n
+
+
+TEXT["indexops"] = ("R-BITPROV (index operations): the same lane-transducer interpretation, with loops unrolled under a case split on the resolution field "
+                    "(and integer parameters), digit helpers lifted to lane tables, and every data-dependent branch forked into path conditions over lane atoms: "
+                    "_h3LeadingNonZeroDigit, isPentagon, _h3Rotate60ccw/cw, _h3RotatePent60ccw/cw, cellToParent, cellToCenterChild, makeDirectChild, "
+                    "getDirectedEdgeOrigin return / store exactly the documented index (field-wise) and code for ALL index values per case.")
+FLOOR["indexops"] = 1
